@@ -285,15 +285,16 @@ pub fn full_new_page_scenario(name: &str, n: usize, x: usize, max_r: usize) -> S
 pub fn scenarios(tier: &str) -> Vec<Scenario> {
 	if tier == "thorough" {
 		vec![
-			full_new_page_scenario("growth-pending/new-index-page-full/n3-in-order", 3, 1, 4),
-			multi_scenario("growth-in-batches/n2", 2, 1, 5, 2, None),
-			multi_scenario("growth-in-batches-crash/n1", 1, 0, 5, 2, Some(CrashCfg { torn: 0, recovery_depth: 1, ..Default::default() })),
 			scenario("growth/n3", 1, 3, 1, None),
 			pending_scenario("growth-pending/n3", 3, 1),
 			scenario("growth/n2", 1, 2, 1, None),
 			scenario("growth/n2-x2", 1, 2, 2, None),
 			scenario("growth-crash/n2", 0, 2, 1, Some(CrashCfg { torn: 1, recovery_depth: 2, ..Default::default() })),
 			scenario("growth-power-loss/n1", 0, 1, 0, Some(CrashCfg { torn: 0, recovery_depth: 1, power_loss: true, max_full_subsets: 8, ..Default::default() })),
+			// (the scenarios added in rounds 4 and 5 come last, the largest one at the very end: the budget is shared)
+			full_new_page_scenario("growth-pending/new-index-page-full/n3-in-order", 3, 1, 4),
+			multi_scenario("growth-in-batches-crash/n1", 1, 0, 5, 2, Some(CrashCfg { torn: 0, recovery_depth: 1, ..Default::default() })),
+			multi_scenario("growth-in-batches/n2", 2, 1, 5, 2, None),
 		]
 	} else {
 		// (the growth-in-batches scenario comes last: it is the most expensive one and takes what is left of the budget)
